@@ -258,8 +258,10 @@ def def_to_idl(kind, d, lits):
         return {"k": "const", "name": d["name"], "type": itype(d["type"]), "value": lits.val(d["val"])}
     if kind == "struct":
         return {"k": d["kind"], "name": d["name"], "fields": [
-            F(fl["id"], fl["req"], itype(fl["type"]), fl["name"],
+            F(fl["id"], "default" if d["kind"] == "union" else fl["req"], itype(fl["type"]), fl["name"],
               None if "none" in fl["def"] else lits.val(fl["def"])) for fl in d["fields"]]}
+    if kind == "enum":
+        return {"k": "enum", "name": d["name"], "values": [{"name": m["name"], "value": m.get("v")} for m in d["members"]]}
     raise ValueError(kind)
 
 
@@ -315,7 +317,7 @@ def context(lits):
     a.append({"k": "struct", "name": "In", "fields": [
         F(1, "default", T("i32"), "x", I(7)), F(2, "optional", T("string"), "y"),
         F(3, "optional", T("string"), "z", S("zd")), F(4, "default", T("list", T("i32")), "l", {"l": [I(1), I(2)]}),
-        F(5, "optional", T("E"), "e", ID("E.B"))]})
+        F(5, "optional", T("E"), "e", ID("E.B")), F(6, "optional", T("E"), "e2")]})
     b.append({"k": "enum", "name": "IE", "values": [{"name": "P", "value": 1}, {"name": "Q", "value": None},
                                                     {"name": "R", "value": 7}]})
     b.append({"k": "struct", "name": "BIn", "fields": [
@@ -381,6 +383,7 @@ def context(lits):
     ways["In"] = [w("full", M(("x", I(1)), ("y", S("s")), ("z", S("t")), ("l", {"l": [I(3)]}), ("e", ID("E.C")))),
                   w("partial", M(("x", I(2))), M((S("y", "'"), S("q")))),
                   w("empty", M()),
+                  w("optional-enum", M(("e2", ID("E.A"))), M(("e2", I(5)))),
                   w("inner-id", M(("x", ID("k_i32_a")), ("e", ID("k_e_a"))), M(("y", ID("b.q_string_a")))),
                   w("id", ID("k_in_a"), ID("k_in_b"))]
     ways["b.BIn"] = [w("full", M(("x", I(1)), ("y", S("s")), ("w", D("0.5")), ("ie", I(7)), ("n", I(9)))),
@@ -403,6 +406,46 @@ def context(lits):
     return prog, ways, ways_b
 
 
+def extras(lits):
+    """hand-written cases beyond shape x way (struct-likes inside struct-likes, unions, exceptions, implicit enum numbers,
+    every optional scalar kind inside a struct literal); TLC evaluates them like the generated ones"""
+    def sdef(kind, name, fields):
+        return {"file": 1, "sec": "structs", "d": def_to_tla({"k": kind, "name": name, "fields": fields}, lits)}
+
+    def out(name):
+        return sdef("struct", name, [
+            F(1, "default", T("In"), "a"), F(2, "optional", T("In"), "b", M(("x", I(5)))),
+            F(3, "default", T("list", T("In")), "c", {"l": [M(("x", I(6)))]}), F(4, "optional", T("b.BIn"), "d"),
+            F(5, "default", T("In"), "e", ID("k_in_a"))])
+    xs = [
+        ("structinstruct", [out("Out1")], "Out1", M(("a", M(("x", I(1)))), ("d", M(("y", S("dy")))))),
+        ("structinstructbyid", [out("Out2")], "Out2", M(("a", ID("k_in_a")), ("b", ID("k_in_b")), ("d", ID("b.q_bin_a")))),
+        ("structdefaultsofstructtype", [out("Out3")], "Out3", M()),
+        ("union", [sdef("union", "Un1", [F(1, "default", T("i32"), "a"), F(2, "default", T("string"), "b"),
+                                         F(3, "default", T("In"), "c")])], "Un1", M(("a", I(5)))),
+        ("unionstruct", [sdef("union", "Un2", [F(1, "default", T("i32"), "a"), F(3, "default", T("In"), "c")])], "Un2",
+         M(("c", M(("x", I(4)))))),
+        ("exception", [sdef("exception", "Ex1", [F(1, "default", T("string"), "msg", S("m")), F(2, "default", T("i32"), "code")])],
+         "Ex1", M(("code", I(3)))),
+        ("enumimplicit", [{"file": 1, "sec": "enums", "d": def_to_tla(
+            {"k": "enum", "name": "G1", "values": [{"name": "N", "value": -2}, {"name": "Z", "value": None},
+                                                   {"name": "P", "value": None}, {"name": "Q", "value": 10},
+                                                   {"name": "R", "value": None}]}, lits)}],
+         "list<G1>", {"l": [ID("G1.N"), ID("G1.Z"), ID("G1.P"), ID("G1.Q"), ID("G1.R")]}),
+        ("optionalscalars", [sdef("struct", "Op1", [
+            F(1, "optional", T("i32"), "a"), F(2, "optional", T("bool"), "b"), F(3, "optional", T("double"), "c"),
+            F(4, "optional", T("binary"), "d"), F(5, "optional", T("E"), "e"), F(6, "optional", T("i64"), "f"),
+            F(7, "optional", T("string"), "g"), F(8, "optional", T("i8"), "h"), F(9, "optional", T("i16"), "i")])], "Op1",
+         M(("a", I(1)), ("b", ID("true")), ("c", D("1.5")), ("d", S("bb")), ("e", ID("E.C")), ("f", I(6)), ("g", S("gg")),
+           ("h", I(8)), ("i", I(9)))),
+        ("optionalscalarsbyid", [sdef("struct", "Op2", [
+            F(1, "optional", T("i32"), "a"), F(7, "optional", T("string"), "g"), F(5, "optional", T("E"), "e")])], "Op2",
+         M(("a", ID("k_i32_a")), ("g", ID("b.q_string_a")), ("e", ID("k_e_a")))),
+    ]
+    return [{"id": "x%d" % (i + 1), "way": w, "defs": defs, "ct": ttype(idl.type_from_str(ct)), "cv": lits.cv(cv)}
+            for i, (w, defs, ct, cv) in enumerate(xs)]
+
+
 ALT = {"bool": ["b:1", "b:0"], "i8": ["i8:1", "i8:2"], "i16": ["i16:1", "i16:2"], "i32": ["i32:1", "i32:2"],
        "i64": ["i64:1", "i64:2"], "double": ["dbl:1", "dbl:2"], "enum": ["i32:1", "i32:2"]}
 
@@ -414,7 +457,7 @@ def build_data(shapes):
     i1, i2 = lits.text_index("alt-one"), lits.text_index("alt-two")
     alt = dict(ALT, string=["str#%d" % i1, "str#%d" % i2], binary=["bin#%d" % i1, "bin#%d" % i2])
     ctx = prog_to_tla(prog, lits)
-    data = {"ctx": ctx, "shapes": [ttype(s) for s in shapes], "ways": ways, "waysb": ways_b,
+    data = {"ctx": ctx, "shapes": [ttype(s) for s in shapes], "ways": ways, "waysb": ways_b, "extra": extras(lits),
             "qidok": sorted(ways_b), "alt": alt,
             "liti": lits.liti, "litd": lits.litd or {"0.0": "dbl:0"}, "lits": lits.lits}
     return data, lits, prog
@@ -424,7 +467,7 @@ def build_data(shapes):
 def realize(v, lits):
     """TLC VALUE with opaque atoms -> VALUE with the driver's atoms"""
     if isinstance(v, dict):
-        if "a" in v:
+        if isinstance(v.get("a"), str):
             return {"a": lits.real_atom(v["a"])}
         return {k: realize(x, lits) for k, x in v.items()}
     if isinstance(v, list):
